@@ -95,7 +95,12 @@ fn mixes() -> Vec<Mix> {
         Mix { name: "SI+SI identical tables", cfgs: vec![si.clone(), si.clone()] },
         Mix { name: "SO+FI", cfgs: vec![so.clone(), fi.clone()] },
         Mix { name: "SI+FO+XI", cfgs: vec![si.clone(), fo.clone(), xi.clone()] },
-        Mix { name: "XX+XI+XO equal fft sizes", cfgs: vec![xx, xi, xo] },
+        Mix { name: "XX+XI+XO equal fft sizes", cfgs: vec![xx, xi.clone(), xo] },
+        // equal input block, different output block (a cache keyed too coarsely would collide)
+        Mix { name: "XX 3->2 + XX 3->1 same input block", cfgs: vec![Cfg::fft(Kind::XX, 3, 2, 24, 1).with_channels(2), Cfg::fft(Kind::XX, 3, 1, 24, 1).with_channels(2)] },
+        Mix { name: "XI 2->3 + XX 2->1 same input block", cfgs: vec![xi, Cfg::fft(Kind::XX, 2, 1, 16, 1).with_channels(2)] },
+        // identical sinc table sizes, different cutoff / window
+        Mix { name: "SI+SI same table size different filter", cfgs: vec![si.clone(), { let mut c = si.clone(); c.ratio = 0.8; c.window = rubato::WindowFunction::Hann; c }] },
     ]
 }
 
@@ -160,24 +165,22 @@ const M: usize = 3;
 fn run_schedules(mix: &Mix, item: &Item, journal: Option<&JournalFile>) -> Result<Value, String> {
     let k = mix.cfgs.len();
     // ---- reference: each script alone on this thread
+    // (each on a fresh thread of its own, so that not even thread-local state is shared)
     let mut reference: Vec<Vec<StepOut>> = Vec::new();
     for (i, cfg) in mix.cfgs.iter().enumerate() {
-        let mut r = build(cfg, i)?;
-        let mut outs = Vec::new();
-        for ops in script(cfg) {
-            outs.push(exec(&mut r, &ops));
-        }
+        let cfg = cfg.clone();
+        let outs = std::thread::spawn(move || -> Result<Vec<StepOut>, String> {
+            crate::run::install_panic_hook();
+            let mut r = build(&cfg, i)?;
+            let mut outs = Vec::new();
+            for ops in script(&cfg) {
+                outs.push(exec(&mut r, &ops));
+            }
+            Ok(outs)
+        })
+        .join()
+        .map_err(|_| "reference thread panicked".to_string())??;
         reference.push(outs);
-    }
-    // ---- workers
-    let mut txs: Vec<Sender<Job>> = Vec::new();
-    let (done_tx, done_rx) = channel::<Done>();
-    let mut handles = Vec::new();
-    for _ in 0..W {
-        let (tx, rx) = channel::<Job>();
-        let dtx = done_tx.clone();
-        handles.push(std::thread::spawn(move || worker_loop(rx, dtx)));
-        txs.push(tx);
     }
     let inter = interleavings(k, M);
     let steps = k * M;
@@ -193,6 +196,18 @@ fn run_schedules(mix: &Mix, item: &Item, journal: Option<&JournalFile>) -> Resul
     for (ii, order) in inter.iter().enumerate() {
         if ii % item.parts != item.part {
             continue;
+        }
+        // fresh worker threads for every interleaving: thread-local state left behind by one
+        // interleaving cannot influence the next, within an interleaving it persists across the
+        // worker assignments (which is where a per-thread cache would show)
+        let mut txs: Vec<Sender<Job>> = Vec::new();
+        let (done_tx, done_rx) = channel::<Done>();
+        let mut handles = Vec::new();
+        for _ in 0..W {
+            let (tx, rx) = channel::<Job>();
+            let dtx = done_tx.clone();
+            handles.push(std::thread::spawn(move || worker_loop(rx, dtx)));
+            txs.push(tx);
         }
         for a in 0..assignments {
             let worker_of = |j: usize| -> usize {
@@ -249,12 +264,12 @@ fn run_schedules(mix: &Mix, item: &Item, journal: Option<&JournalFile>) -> Resul
                 sample = Some(json!({"mix": mix.name, "interleaving": order, "worker_of_step": (0..steps).map(worker_of).collect::<Vec<_>>(), "scripts": mix.cfgs.iter().map(|c| format!("construct {}; P; {}", c.short(), if c.kind.is_async() { "R(1.5,T) P" } else { "P" })).collect::<Vec<_>>()}));
             }
         }
-    }
-    for tx in &txs {
-        let _ = tx.send(Job::Quit);
-    }
-    for h in handles {
-        let _ = h.join();
+        for tx in &txs {
+            let _ = tx.send(Job::Quit);
+        }
+        for h in handles {
+            let _ = h.join();
+        }
     }
     // ---- supplementary, sampling (labelled so): free-running threads behind a barrier
     let mut free_rounds = 0u64;
